@@ -237,6 +237,27 @@ def f_no_headers_sep(m):
     m["body"] = b"\r\nbody starting with an empty line\r\n"
 
 
+def f_ct_subtype_quote(m):
+    # (a token may not hold a quote, but the message is what it is: the server still has to answer with well-formed strings)
+    m["ctype"] = b'Content-Type: text/pl"ain; charset=us-ascii'
+
+
+def f_cdisp_quote(m):
+    m["extra"].append(("Content-Disposition", b'at"t\\x'))
+
+
+def f_cc_empty(m):
+    m["extra"].append(("Cc", b""))
+
+
+def f_from_two_at(m):
+    m["from"] = '"a@b"@example.com'
+
+
+def f_to_two_at_name(m):
+    m["to"] = 'Odd "x@y" <"p@q"@example.org>, plain@example.org'
+
+
 FEATURES = {k[2:]: v for k, v in list(globals().items()) if k.startswith("f_")}
 
 
